@@ -1,9 +1,11 @@
 (* C18 -- shuffle tables are per-vertex permutations and the induced digit <-> live-arc map is a bijection.
-   (The NumPy random stream itself is not modelled: see DESIGN.md; table contents and repeatability are
-   checked at run time by the correspondence harness.) *)
+   NumPy's legacy generator is modelled by MT19937.v (init_genrand seeding, tempering, random_interval, in-place shuffle); that
+   NumPy's RandomState IS this generator is an assumption the correspondence harness checks on every run by comparing every sampled
+   table with the model's, entry for entry.  Under the model the table is a FUNCTION of (observed length, seed) -- the same seed
+   always gives the same table -- and every row is a permutation whatever the 32-bit draws are. *)
 From Coq Require Import Permutation Sorting.Sorted.
-From DSW Require Import Py Bignum Convert Kmer Graph Coder Spec GraphSpec CoderSpec Shuffle.
-From DSW.Proofs Require Import ShuffleProofs.
+From DSW Require Import Py Bignum Convert Kmer Graph Coder Spec GraphSpec CoderSpec Shuffle MT19937.
+From DSW.Proofs Require Import ShuffleProofs ShuffleMTProofs.
 
 (* argsort returns a permutation of the positions whatever the keys: the digit -> arc map is injective and
    onto the live arcs even for malformed rows *)
@@ -59,6 +61,21 @@ Proof.
   rewrite Hl. apply Z2Nat.id. unfold pow4. apply Z.pow_nonneg. discriminate.
 Qed.
 
+(* the table NumPy's generator yields after numpy.random.seed(seed): one row per vertex, each a permutation of 0..3 (whatever the
+   draws), it is the model of create_random_shuffles under "row i of the generator's output", and a perm_table *)
+Theorem C18_numpy_table : forall k seed rows, mt_rows (Z.to_nat (pow4 k)) seed = Some rows ->
+  length rows = Z.to_nat (pow4 k) /\ Forall (fun r => Permutation r [0; 1; 2; 3]) rows
+  /\ rows = create_random_shuffles k (fun i _ => nth i rows []).
+Proof.
+  intros k seed rows H. destruct (mt_rows_spec _ _ _ H) as [Hl [Hp _]].
+  split; [exact Hl|]. split; [exact Hp|]. apply (numpy_table_is_model k seed rows H).
+Qed.
+(* the documented table (seed 2021, observed length 2) *)
+Example C18_doctest : mt_rows 16 2021 = Some
+  [[3;2;1;0];[2;3;1;0];[3;1;0;2];[0;3;1;2];[3;2;0;1];[1;0;3;2];[0;3;1;2];[2;0;1;3];[2;3;0;1];[1;0;3;2];[2;0;1;3];[0;1;3;2];
+   [2;3;1;0];[2;0;3;1];[0;1;3;2];[0;3;2;1]].
+Proof. exact mt_doctest_2021. Qed.
+
 Print Assumptions C18_argsort_perm.
 Print Assumptions C18_digit_roundtrip.
 Print Assumptions C18_position_roundtrip.
@@ -68,3 +85,4 @@ Print Assumptions C18_code_is_rank_selection.
 Print Assumptions C18_finite_sweep.
 Print Assumptions C18_table.
 Print Assumptions C18_table_is_perm_table.
+Print Assumptions C18_numpy_table.
